@@ -526,10 +526,27 @@ def wal_string(s):
     return out + '"'
 
 
+def recheck_crash(rep, case, impl, mout, cmp):
+    """a session whose implementation side ended outside the protocol is run once more on its own; if it crashes again
+    the failure is recorded and None is returned, otherwise the fresh (case, impl, mout, cmp)"""
+    if not impl.get('crash'):
+        return case, impl, mout, cmp
+    again = run_sessions([case])[0]
+    if again[1].get('crash'):
+        rep.oracle_failures.append({'case': case, 'impl': again[1],
+                                    'why': 'the implementation could not run this session: ' + str(again[1]['crash'])[:300]})
+        return None
+    return again
+
+
 def std_checks(rep, results, oracle=None):
     """shared loop: correspondence for every session + optional oracle(case, impl) -> None|str"""
     for case, impl, mout, cmp in results:
         rep.evaluations += 1
+        r_ = recheck_crash(rep, case, impl, mout, cmp)
+        if r_ is None:
+            continue
+        case, impl, mout, cmp = r_
         if cmp is None:
             pass
         elif cmp.startswith('skip:'):
